@@ -202,6 +202,23 @@ func c03Validate(E uintptr, O []byte, funcLen int, P uintptr, W, P0 []byte) (res
 			grown = true
 		}
 	}
+	// rule 2b: nothing in the part of the function that stays behind may branch into the bytes that are overwritten
+	// by the entry jump / whose copy now lives elsewhere (offset 0, the entry itself, is the mock and is fine)
+	for pos := res.copied; pos < funcLen && pos < len(O); {
+		i, err := x86.Decode(O[pos:min(pos+16, len(O))], 64)
+		if err != nil {
+			break
+		}
+		if i.PCRel != 0 && c03kind(i) != "RIPmem" {
+			t := pos + i.Len + int(c03rel(O[pos+i.PCRelOff:pos+i.PCRelOff+i.PCRel], i.PCRel))
+			if t > 0 && t < res.copied {
+				res.key = "C03/branch-into-relocated-prefix"
+				res.why = fmt.Sprintf("%s at original +%d branches to original +%d, inside the %d bytes that were relocated: the trampoline cannot be faithful, the apply should have been refused", c03kind(i), pos, t, res.copied)
+				return
+			}
+		}
+		pos += i.Len
+	}
 	// rule 4: inside the placeholder, rest untouched
 	if res.written > len(P0) {
 		res.key, res.why = "C03/placeholder-overrun", fmt.Sprintf("wrote %d bytes into a placeholder of %d", res.written, len(P0))
